@@ -1,6 +1,9 @@
 use atomic::Atomic;
 use std::fmt::{Display, Formatter};
+#[cfg(not(transparencies_stretto_verif))]
 use std::sync::atomic::{AtomicI64, Ordering};
+#[cfg(transparencies_stretto_verif)]
+use stretto_verif_rt::atomic::{AtomicI64, Ordering};
 use std::sync::Arc;
 
 const MAXI64: i64 = i64::MAX;
